@@ -196,3 +196,10 @@ class HamiltonianCanonical(
                 UserWarning,
                 2,
             )
+
+    def validate_simulation(self) -> None:
+        """Validate the simulation, also making sure the last momenta are those of the
+        atoms at the start of the run."""
+        self.context.last_momenta = self.atoms.get_momenta()
+
+        super().validate_simulation()
